@@ -289,7 +289,7 @@ impl FixtureDatabase {
     }
 
     /// The expressions a statement evaluates itself (not those of nested statements).
-    fn direct_expressions(stmt: &Stmt) -> Vec<&Expr> {
+    pub(crate) fn direct_expressions(stmt: &Stmt) -> Vec<&Expr> {
         match stmt {
             Stmt::Expr(s) => vec![&s.value],
             Stmt::Assign(s) => vec![&s.value],
